@@ -44,6 +44,12 @@ def build(tier, seed):
         rt += [(6, 0, 0, 1, 1, 4294967296, 4294967296), (6, 0, 0, 1, 1, 18446744073709551615, 18446744073709551615),
                (6, 0, 0, 1, 0, 9223372036854775808, 9223372036854775808), (1, 3, 3, 2, 0, 8, 8), (6, 0, 0, 2, 2, 99999, 99999), (1, 0, 0, 0, 0, 0, 0),
                (2, 3, 1, 2, 3, 10, 10), (6, 0, 0, 2, 1, 0, 0)]
+    # non-ASCII (valid multi-byte UTF-8) file names / modes: decode of the RFC encoding gives the same strings
+    import c10
+    for i_ in c10.utf8_requests():
+        i_.name = i_.name.replace("c10_t_", "c11_t_")
+        i_.invocation = i_.invocation.replace("c10_t_", "c11_t_")
+        I.append(i_)
     for r in lay:
         I.append(request(*r, rt=False))
     for r in rt:
